@@ -34,6 +34,7 @@ def rules(ctx):
     c055(ctx)
     c056(ctx)
     c057(ctx)
+    c058(ctx)
 
 
 def c055(ctx):
@@ -306,3 +307,67 @@ def c057(ctx):
     if g:
         srt = [p_ for p_ in P.call_points(g, r"(alloc|core)::slice::(<impl \[T\]>::)?(sort\w*|reverse)$")]
         ctx.check(R, g, "finish-keeps-order", not srt, "compaction_finish does not reorder the outputs", "compaction_finish reorders the outputs of the multi-builder")
+
+
+# ------------------------------------------------------------------------------------------------
+# C05.8 the multi-builder writes every entry into a file it later seals and reports
+
+def c058(ctx):
+    R = "C05.8"
+    ctx.declare(R, "every builder the multi-builder opens is recorded in `paths` and sealed before it is let go; put/del forward their entry to the current builder")
+    MB = "sst::SstMultiBuilder::"
+    SEAL = r"<sst::SstBuilder as sst::Builder>::seal$"
+    n = 0
+    for key in (MB + "split_hint", MB + "get_builder", "<sst::SstMultiBuilder as sst::Builder>::seal"):
+        f = ctx.fn(R, key)
+        if not f:
+            continue
+        takes = [p for p in P.call_points(f, r"core::option::Option::take$") if "builder" in K.arg_field_names(f, p, 0)]
+        seals = P.call_points(f, SEAL)
+        for pt in takes:
+            n += 1
+            # a taken builder is either sealed or (None) there was nothing to seal: the only way past `take` without `seal` is the None arm
+            none_edges = set()
+            for b in P.switch_blocks(f):
+                for s_ in K.cond_sources(f, b.idx):
+                    if s_["k"] == "call" and s_.get("pt") == pt:
+                        none_edges.add((b.idx, "sw:0"))
+            byp = P.reach(f, P.after(f, pt), P.return_points(f), avoid=set(seals) | set(P.error_points(f)) | set(P.call_points(f, r"core::option::unwrap_failed$|core::panicking::")),
+                          avoid_edges=none_edges)
+            ctx.check(R, f, "taken-builder-sealed", bool(seals) and byp is None, "the builder taken out of self.builder is sealed on every path",
+                      "a builder is taken out of the multi-builder and can be dropped unsealed: its entries never reach a complete file", pt=pt, path=byp)
+    ctx.floor(R, "builder.take() sites", n, 3)
+    f = ctx.fn(R, MB + "get_builder")
+    if f:
+        new = ctx.calls(R, f, r"sst::SstBuilder::new$")
+        pu = ctx.calls(R, f, r"alloc::vec::Vec::push$", arg_pred=K.recv_is_field("paths"), what="paths.push")
+        ctx.order_chain(R, f, [("paths.push(path)", pu), ("SstBuilder::new(path)", new)])
+        for pt in new:
+            a = K.root_local(f, P.term_at(f, pt)["args"][1])
+            same = False
+            for q in pu:
+                for src in P.origins(f, P.term_at(f, q)["args"][1], through_calls=False):
+                    if src["k"] == "call" and src["callee"].endswith("::clone") and K.ref_base(f, src["t"]["args"][0]) == a:
+                        same = True
+                if K.root_local(f, P.term_at(f, q)["args"][1]) == a:
+                    same = True
+            ctx.check(R, f, "recorded-path-is-opened", same, "the path recorded in `paths` is the path the new builder writes", "the path pushed to `paths` is not the path given to SstBuilder::new", pt=pt)
+        # the builder handed back is the one stored
+        fw = P.field_writes(f, r"SstMultiBuilder$", "builder")
+        ctx.check(R, f, "stores-new-builder", any(any(c.endswith("SstBuilder::new") for c in P.origin_calls(f, f.blocks[w[0]].st[w[1]]["rv"].get("a") or (f.blocks[w[0]].st[w[1]]["rv"].get("ops") or [None])[0]))
+                                                  for w in fw if w[1] < len(f.blocks[w[0]].st)),
+                  "the new builder becomes self.builder", "the builder created by get_builder is not stored in self.builder")
+    for m, argn in (("put", 4), ("del", 3)):
+        f = ctx.fn(R, "<sst::SstMultiBuilder as sst::Builder>::" + m)
+        if not f:
+            continue
+        gb = ctx.calls(R, f, MB + "get_builder$")
+        fw_ = ctx.calls(R, f, r"<sst::SstBuilder as sst::Builder>::%s$" % m)
+        ctx.order_chain(R, f, [("get_builder", gb), ("SstBuilder::" + m, fw_)])
+        ctx.must_pass(R, f, "SstBuilder::" + m, fw_)
+        for pt in fw_:
+            a = P.term_at(f, pt)["args"]
+            ok = all(any(q["k"] == "param" and q["i"] == i + 1 for q in P.origins(f, a[i], through_calls=False)) for i in range(1, argn))
+            ctx.check(R, f, "forwards-arguments", ok and any(c.endswith("get_builder") for c in P.origin_calls(f, a[0])),
+                      "%s forwards key, timestamp%s to the builder get_builder returned" % (m, ", value" if m == "put" else ""),
+                      "SstMultiBuilder::%s does not forward its own arguments to the current builder" % m, pt=pt)
